@@ -37,7 +37,7 @@ BUDGET_S = {'quick': 240, 'thorough': 2400}
 
 FEATS = ('hier', 'abstract', 'unreg', 'extra', 'enum', 'strlike', 'any',
          'untyped', 'date', 'path', 'defaults', 'hooks', 'permissive', 'trap',
-         'opt_any', 'seasoned')
+         'opt_any', 'seasoned', 'underscore')
 
 
 def leaf_sites(v, spec, path=()):
@@ -81,6 +81,30 @@ def alias_typed(draw, spec):
     return t
 
 
+def tagged_object_below_unknown_key(draw, spec, t):
+    import copy
+    objs = [c for c in spec['classes'] if c.get('kind', 'obj') == 'obj' and c.get('reg', True)
+            and not c.get('abstract')]
+    if not objs:
+        return None
+    c = draw(st.sampled_from(objs))
+    v = draw(gen.vspec_for(dict(spec, doc_type=['ref', c['name']]), ['ref', c['name']], hard=False))
+    if v is None or v[0] != 'obj':
+        return None
+    sub = gen.project(v, spec)
+    sub[2] = '!' + v[1]
+    if draw(st.booleans()):
+        sub = T.Q([sub, T.S('x')])
+    maps = [(p, s) for p, s in T.subtrees(t) if s[0] == 'm']
+    if not maps:
+        return None
+    p, mp = draw(st.sampled_from(maps))
+    mp = copy.deepcopy(mp)
+    mp[1].insert(draw(st.integers(0, len(mp[1]))),
+                 [T.S(draw(st.sampled_from(['zz_extra', 'Key', 'another-key']))), sub])
+    return T.set_at(t, p, mp)
+
+
 @st.composite
 def cases(draw):
     spec = draw(gen.models(FEATS))
@@ -93,6 +117,12 @@ def cases(draw):
     n = draw(st.sampled_from([1, 1, 2, 3, 5]))
     t, ops = draw(gen.mutate(spec, t, n=n, kinds=['tag']))
     src = origin.split(':')[0]
+    if draw(st.integers(0, 3)) == 0:
+        # a well-formed tagged object of a registered class below an unknown
+        # (extra / extraneous) key of some mapping, or as an extra list item
+        t2 = tagged_object_below_unknown_key(draw, spec, t)
+        if t2 is not None:
+            t, src = t2, src + '+tagged_extra'
     if draw(st.integers(0, 3)) == 0:
         # anchors/aliases: one node referenced from positions of different types
         t, info = draw(gen.share(t))
@@ -123,6 +153,8 @@ def check(case, ctx):
     ctx.count(outcome)
     if '+alias' in case.get('src', ''):
         ctx.count('with_alias')
+    if '+tagged_extra' in case.get('src', ''):
+        ctx.count('with_tagged_object_below_unknown_key')
     if 'yv_canary' in sys.modules:
         called = list(sys.modules['yv_canary'].CALLED)
         sys.modules.pop('yv_canary', None)
